@@ -110,7 +110,7 @@ def run(tier):
     n_flat = 0
     for i in range(n_rand):
         system = 'en' if i % 2 == 0 else 'ja'
-        v = gen.rand_cat(rng, rng.choice([1, 2, 3, 3, 4]), system)
+        v = gen.rand_cat(rng, rng.choice([1, 2, 3, 3, 4]), system, feats=gen.EN_FEATS_WIDE)
         eid += 1
         if i % 5 == 4:
             ft = gen.flat_toks(v, rng)
@@ -127,7 +127,7 @@ def run(tier):
     n_pv = 5000 if tier == 'quick' else 50000
     for i in range(n_pv):
         eid += 1
-        add(drive_pv(eid, gen.rand_cat(rng, rng.choice([0, 1, 2, 3]), 'en' if i % 2 else 'ja')))
+        add(drive_pv(eid, gen.rand_cat(rng, rng.choice([0, 1, 2, 3]), 'en' if i % 2 else 'ja', feats=gen.EN_FEATS_WIDE)))
     stats = TraceStats()
     rejects, stats = validate('traces/CatTrace.tla', events, 'c05', per_shard=15000, stats=stats)
     from ..trace import binding_demo
